@@ -67,3 +67,34 @@ func VerifWakeBlockedEnqueuers(r Batcher) {
 		(&VerifBuffer{b: br.buffer}).WakeAll()
 	}
 }
+
+// Dump walks the buffer's linked list from both ends (bounded, so that a corrupted list cannot loop for ever)
+// and reports the operations met, the length counter, the cursor's position in the forward walk (-1 = nil
+// cursor, -2 = a cursor that is not on the list) and the shutdown flag.
+func (v *VerifBuffer) Dump() (fwd, bwd []Operation, length uint32, cursor int, shut bool) {
+	b, ok := v.b.(*buffer)
+	if !ok {
+		return nil, nil, 0, -1, false
+	}
+	b.lock.Lock()
+	defer b.lock.Unlock()
+	limit := int(b.len) + 4
+	cursor = -1
+	i := 0
+	for l := b.head; l != nil && i < limit; l = l.nxt {
+		if l == b.cursor {
+			cursor = i
+		}
+		fwd = append(fwd, l.op)
+		i++
+	}
+	if b.cursor != nil && cursor == -1 {
+		cursor = -2
+	}
+	i = 0
+	for l := b.tail; l != nil && i < limit; l = l.prv {
+		bwd = append(bwd, l.op)
+		i++
+	}
+	return fwd, bwd, b.len, cursor, b.isShutdown
+}
